@@ -501,7 +501,9 @@ class Beam(_Simu):
             iter = {}
 
         iter["displacement"] = self.displacement
-        if self.algo in AlgoType.Get_Hyperbolic_Types():
+        # every time scheme but the static one carries time derivatives from step to step
+        # (the speed for the first-order scheme, speed and acceleration for the second-order ones)
+        if self.algo != AlgoType.elliptic:
             iter["speed"] = self._Get_v_n(self.problemType)
             iter["accel"] = self._Get_a_n(self.problemType)
 
